@@ -266,6 +266,14 @@ def _weave_states_in_region(
                 # any other op that contains ops:
                 elif op.regions:
                     _weave_states_in_region(op, dict(), rewriter)
+                    # what happens inside is not carried out of the op: behind it, nothing is known about
+                    # the accelerators it sets up, and about none if it may change the state in another way
+                    if has_accfg_effects(op):
+                        state.clear()
+                    else:
+                        for region in op.regions:
+                            for acc_name in find_all_acc_names_in_region(region):
+                                state.pop(acc_name, None)
                 # Check if the op has effects on accfg state
                 elif has_accfg_effects(op):
                     state.clear()
